@@ -1,7 +1,7 @@
 """C11 - each ready-made estimator minimises exactly its documented objective."""
 from . import est_common
 
-LEAN_MODULES = ["Skglm.Properties.C11"]
+LEAN_MODULES = ["Skglm.Properties.C11", "Skglm.Properties.C11b"]
 
 
 def run(ctx, rep):
@@ -11,6 +11,7 @@ def run(ctx, rep):
                 "feasibility, dual stationarity and the primal image; one fit = one evaluation")
     est_common.run_doc_objectives(ctx, rep)
     est_common.run_plumbing(ctx, rep)
+    est_common.run_grp_converter(ctx, rep)
 
 
 def replay(ctx, payload):
